@@ -64,6 +64,8 @@ func backendProp(b backendSpec, meaning string) propFunc {
 		r.Clauses = append(r.Clauses, orderClause)
 		c.runOperandOrder(r, "order."+b.Name, inPkgs(b.Name))
 		r.floor("order."+b.Name, orderFloors[b.Name])
+		r.Clauses = append(r.Clauses, enumMapClause)
+		c.runEnumTables(r, b.Name)
 		r.Clauses = append(r.Clauses, "termination predicate (E15): the predicate over a block's last statement that decides whether a switch clause needs a closing break answers true only for Break/Continue/Return/Kill, for a trailing nested block what it answers for that block, for a trailing if only when both arms are terminated")
 		c.runTerminatorPredicates(r, "term.lastonly", inPkgs(b.Name))
 		r.floor("term.predicates", 1)
